@@ -14,7 +14,8 @@ def run(ctx: Ctx):
         "decisions: C06; Jacobian / model / noise values on both sides: C02 (C++) and C01/C03/C04/C05 (Python) state both against the same named symbolic expressions",
         "compiled generated filter: g++ -std=c++20 -ffp-contract=off with the Eigen stand-in tools/cpp/shim/Eigen/Dense (real Eigen is not installed); float summation order not modelled; relative 1e-9 (matrix-norm relative) on SPD dyadic inputs",
     ]
-    jobs = cppjobs.make_jobs(ctx, n, min_sensors=1)
+    # thresholds include values that need all 17 significant digits in the generated header
+    jobs = cppjobs.make_jobs(ctx, n, min_sensors=1, ks=(None, 3.0, 1.0, 2.718281828459045, 1.0 / 3.0))
     pres = ctx.run_impl_jobs("ekf_py.py", jobs)
     cres = ctx.run_impl_jobs("cpp_gen.py", jobs, timeout=3000)
     combos = {}
